@@ -10,3 +10,8 @@ cls('Name',
     _Name__ecu_instance=INT, _Name__manufacturer_code=INT, _Name__identity_number=INT)
 cls('DTC', _dtc=INT, _spn=INT, _fmi=INT, _oc=INT, _cm=INT)
 cls('DtcLamp')
+
+cls('ControllerApplication',
+    _name=TRef('Name'), _device_address_preferred=TOpt(INT), _device_address_announced=INT,
+    _device_address=TOpt(INT), _device_address_state=INT, _ecu=TOpt(TRef('ElectronicControlUnit')),
+    _subscribers_request=TList(FUNC), _subscribers_acknowledge=TList(FUNC), _started=BOOL)
